@@ -487,13 +487,13 @@ def run():
         raise vlib.ToolError("vacuity gate: %s %s" % (dict(stats), dict(per_kind)))
     cov = {"states": states, "transitions": transitions, "traces_validated_against_impl": len(live), "evaluations": nops,
            "distinct_nontrivial": stats["ok_mixed"],
-           "rule": "MC_Refactor: all sequences of <= %d enabled refactorings from 12 base schemas, invariant Transparent (22 documents x every reading) checked by TLC on the "
+           "rule": "MC_Refactor: all sequences of <= %d enabled refactorings from 13 base schemas, invariant Transparent (22 documents x every reading) checked by TLC on the "
                    "specification's semantics, every reachable state replayed as a session into both validators; plus random sessions (random schema of the core/shared "
                    "fragments, <= 8 documents (instances and mutants), chains of refactorings in both directions). Trace_Refactor accepts a step only if Refactor!Step "
                    "allows it and requires unchanged verdicts. Non-trivial/distinct = steps across which some document is accepted and some rejected, all unchanged." % depth,
            "samples": samples or [{"note": "none sampled"}], "sessions_from_tlc": n_mc, "sessions_random": len(sessions) - n_mc,
            "sessions_skipped_base_schema_rejected": skipped, "steps_ok_by_kind": dict(per_kind), "steps_either": stats["either"], "steps_known": stats["known"],
-           "random_step_kinds_proposed": dict(kinds), "exhaustive": True, "exhaustive_scope": {"MaxDepth": depth, "base_schemas": 12, "documents": 22},
+           "random_step_kinds_proposed": dict(kinds), "exhaustive": True, "exhaustive_scope": {"MaxDepth": depth, "base_schemas": 13, "documents": 22},
            "known_finding_hits": out.known, "checker_cmd": "tlc MC_Refactor (Transparent, Emit) ; tlc Trace_Refactor"}
     vlib.write_evidence(PID, "model_checking", cov, wall, len(out.violations),
                         ["the renderer (abstract schema -> CDDL text) is trusted glue shared with C01/C02",
